@@ -310,6 +310,19 @@ func fullPathOf(sp *spec.Spec, svc *spec.Service, path string) string {
 	return joinPath(sp.APIPath, svc.Path, path)
 }
 
+// fullPathsOf lists the full paths of a route under every base path of the service (Path may
+// be called more than once); an absolute route has exactly one.
+func fullPathsOf(sp *spec.Spec, svc *spec.Service, path string) []string {
+	out := []string{joinPath(sp.APIPath, svc.Path, path)}
+	if strings.HasPrefix(path, "//") {
+		return out
+	}
+	for _, b := range svc.Paths {
+		out = append(out, joinPath(sp.APIPath, b, path))
+	}
+	return out
+}
+
 func methodRoutes(m *spec.Method) [][2]string {
 	out := [][2]string{{m.HTTP.Verb, m.HTTP.Path}}
 	for _, r := range m.HTTP.Routes {
@@ -548,8 +561,14 @@ func c07Method(s *Svc, m *spec.Method, r *MethodResult, count bool) []c07Finding
 		for _, o := range docOps(dv.doc, dv.v2) {
 			ops[routeKey(o.Verb, o.Path)] = o
 		}
+		var routes [][2]string
 		for _, rt := range methodRoutes(m) {
-			full := fullPathOf(sp, s.Service, rt[1])
+			for _, full := range fullPathsOf(sp, s.Service, rt[1]) {
+				routes = append(routes, [2]string{rt[0], full})
+			}
+		}
+		for _, rt := range routes {
+			full := rt[1]
 			o, ok := ops[routeKey(rt[0], full)]
 			if !ok {
 				// trailing slash conventions are goa's; the mount-set comparison covers the route
